@@ -203,6 +203,26 @@ PairOf(cx) ==
         drho |-> PAt(D, cx.st, "rho", cx.di, 0), srho |-> PAt(S, cx.st, "rho", cx.si, 0),
         K |-> cx.K]
 
+\* ---- arithmetic operators of the equation language (Python semantics) -------
+\* floor division / floor modulo for any non-zero divisor (TLC's \div floors)
+FDiv(a, b) == IF b > 0 THEN a \div b ELSE (-a) \div (-b)
+FMod(a, b) == a - b * FDiv(a, b)                  \* sign of the divisor
+\* C: truncation toward zero, remainder with the sign of the dividend
+TDivG(a, b) == LET q == (IF a < 0 THEN -a ELSE a) \div (IF b < 0 THEN -b ELSE b)
+               IN IF (a < 0) = (b < 0) THEN q ELSE -q
+TMod(a, b) == a - b * TDivG(a, b)
+RECURSIVE IPow(_, _)
+IPow(b, e) == IF e = 0 THEN 1 ELSE b * IPow(b, e - 1)          \* e >= 0
+IntAttrs == {"ci", "cj", "ni", "nj"}
+\* the operand is integer-typed in the generated C (else double)
+IntTyped(a, cx) == \/ a.k = "il"
+                   \/ a.k = "at" /\ a.n \in IntAttrs
+                   \/ a.k \in {"dp", "sp"} /\ cx.ty[a.n] \in {"int", "long", "uint"}
+BothInt(a, cx) == /\ IntTyped(a.a[1], cx) /\ IntTyped(a.a[2], cx)
+                  /\ ~(a.a[1].k = "il" /\ a.a[2].k = "il")  \* constants are folded by
+                                                          \* the translator, Python rules
+Truth(v) == IF v # 0 THEN 1 ELSE 0
+
 RECURSIVE AtomV(_, _)
 AtomV(a, cx) ==
     CASE a.k = "c" -> a.i
@@ -235,16 +255,55 @@ AtomV(a, cx) ==
       [] a.k = "kw" ->                                  \* SPH_KERNEL.kernel(XIJ, RIJ, u)
             LET pc == PairOf(cx)
             IN Kern(cx.K, XIJ(pc), R2IJ(pc), AtomV(a.a[1], cx))
+      \* operators; the operands a.a[..] are leaf atoms.  "floor" \in cx.cmode
+      \* selects C's truncation where the generated code has it (only used to
+      \* classify a disagreement, never as the expected value)
+      [] a.k = "pow" -> IPow(AtomV(a.a[1], cx), AtomV(a.a[2], cx))   \* u ** v, v >= 0
+      [] a.k = "mod" ->                                 \* u % v
+            LET u == AtomV(a.a[1], cx)
+                v == AtomV(a.a[2], cx)
+            IN IF "floor" \in cx.cmode /\ ~(a.a[1].k = "il" /\ a.a[2].k = "il")
+               THEN TMod(u, v)          \* C int % and fmod()
+               ELSE FMod(u, v)
+      [] a.k = "fdiv" ->                                \* u // v
+            LET u == AtomV(a.a[1], cx)
+                v == AtomV(a.a[2], cx)
+            IN IF "floor" \in cx.cmode /\ BothInt(a, cx) THEN TDivG(u, v) ELSE FDiv(u, v)
+      [] a.k = "abs" -> LET u == AtomV(a.a[1], cx) IN IF u < 0 THEN -u ELSE u
+      [] a.k = "max" -> LET u == AtomV(a.a[1], cx)
+                            v == AtomV(a.a[2], cx) IN IF u < v THEN v ELSE u
+      [] a.k = "min" -> LET u == AtomV(a.a[1], cx)
+                            v == AtomV(a.a[2], cx) IN IF v < u THEN v ELSE u
+      [] a.k = "cmp" ->                                 \* (u < v) ... as a number
+            LET u == AtomV(a.a[1], cx)
+                v == AtomV(a.a[2], cx)
+            IN IF (CASE a.n = "lt" -> u < v [] a.n = "le" -> u <= v [] a.n = "eq" -> u = v
+                     [] a.n = "ne" -> u # v [] a.n = "gt" -> u > v [] a.n = "ge" -> u >= v)
+               THEN 1 ELSE 0
+      [] a.k = "and" -> LET u == AtomV(a.a[1], cx)      \* value semantics of and / or
+                        IN IF u # 0 THEN AtomV(a.a[2], cx) ELSE u
+      [] a.k = "or" -> LET u == AtomV(a.a[1], cx)
+                       IN IF u # 0 THEN u ELSE AtomV(a.a[2], cx)
+      [] a.k = "not" -> 1 - Truth(AtomV(a.a[1], cx))
+      [] a.k = "uneg" ->        \* ((-u) % 1024), u an unsigned 32-bit property:
+                                \* -u = 2^32 - u, and 1024 divides 2^32
+            FMod(-AtomV(a.a[1], cx), 1024)
+      [] a.k = "ovf" ->         \* ((self.bi*self.bi)/self.bi)/self.bi, bi = 2^be:
+                                \* Python integers do not overflow; a C long does
+            IF "ovf" \in cx.cmode /\ 2 * cx.at.be >= 64 THEN 0 ELSE 1
 \* "idiv": num / den written between two integer-typed operands (integer
 \* literal, integer-valued instance attribute, int-typed property).  What the
-\* Python source says is the true quotient.  cx.cdiv selects the OTHER
+\* Python source says is the true quotient.  "div" \in cx.cmode selects the OTHER
 \* semantics, C's truncating integer division, which is only used to classify
 \* a disagreement (finding C02-cdivision-int), never as the expected value.
 TDiv(n, d) == IF n >= 0 THEN n \div d ELSE -((-n) \div d)        \* d > 0
 AtomQ(a, cx) == IF a.k = "sym" /\ a.n \in RatSyms THEN SymRat(a.n, PairOf(cx))
                 ELSE IF a.k = "idiv"
-                THEN (IF cx.cdiv THEN RInt(TDiv(AtomV(a.a[1], cx), AtomV(a.a[2], cx)))
+                THEN (IF "div" \in cx.cmode
+                      THEN RInt(TDiv(AtomV(a.a[1], cx), AtomV(a.a[2], cx)))
                       ELSE Rat(AtomV(a.a[1], cx), AtomV(a.a[2], cx)))
+                ELSE IF a.k = "powq"        \* u ** v with v < 0: 1 / u^(-v)
+                THEN Rat(1, IPow(AtomV(a.a[1], cx), -AtomV(a.a[2], cx)))
                 ELSE RInt(AtomV(a, cx))
 
 TermV(tm, cx) ==
@@ -324,26 +383,29 @@ NbrsOfData(A, st) ==
         {j \in 0..(A[t[2]].nall - 1) : IsNbr(A, st, t[1], t[3], t[2], j)}]
 
 \* the effect of one event of the log on the data
-StepData(W, e, x, eqOf, nbrs, cdiv) ==
+StepData(W, e, x, eqOf, nbrs, cmode) ==
     IF e.k \notin Hooks THEN W
     ELSE LET q == eqOf[e.id]
              b == x.body[Key(e.id)]
              cx == [A |-> W.A, st |-> x.stride, d |-> q.dest, di |-> e.d, s |-> e.a,
                     si |-> e.s, at |-> b.attrs, t |-> x.t, dt |-> x.dt, K |-> x.kern,
                     nb |-> IF e.a >= 0 /\ e.d >= 0 THEN nbrs[<<q.dest, e.a, e.d>>] ELSE {},
-                    mat |-> <<>>, cdiv |-> cdiv]
+                    mat |-> <<>>, cmode |-> cmode, ty |-> x.types]
          IN ExecStmts(W, b[e.k], cx, x.types)
 
-EvalLogM(x, log, nbrs, cdiv) ==
+\* cmode: the set of constructs evaluated with C semantics instead of
+\* Python's: "div" (int / int truncates), "floor" (% and int // truncate),
+\* "ovf" (products of C longs wrap).  {} is what the Python source says.
+EvalLogM(x, log, nbrs, cmode) ==
     LET E == ProgEqs(NProg(x.prog))
         eqOf == [id \in {E[i].eid : i \in DOMAIN E} |->
                     E[CHOOSE i \in DOMAIN E : E[i].eid = id]]
         F[i \in 0..Len(log)] ==
             IF i = 0 THEN [A |-> Arr0(x), bad |-> FALSE]
-            ELSE StepData(F[i - 1], log[i], x, eqOf, nbrs, cdiv)
+            ELSE StepData(F[i - 1], log[i], x, eqOf, nbrs, cmode)
     IN F[Len(log)]
 \* the documented (Python) semantics: `/` is true division
-EvalLog(x, log, nbrs) == EvalLogM(x, log, nbrs, FALSE)
+EvalLog(x, log, nbrs) == EvalLogM(x, log, nbrs, {})
 
 SpecLog(x) == Run(NProg(x.prog), Arr0(x), NbrsOfData(Arr0(x), x.stride), x.env).log
 \* the state after one compute(): the statements of every hook invocation of
@@ -401,7 +463,7 @@ OrderDiff(prog, log1, log2) ==
 
 \* well-formedness of a case: the data conventions the exactness argument
 \* rests on, and read/write discipline that makes sums order independent
-BaseProps == {"x", "y", "z", "h", "m", "rho", "u", "v", "w", "ik"}
+BaseProps == {"x", "y", "z", "h", "m", "rho", "u", "v", "w", "ik", "jk"}
 WellFormed(x) ==
     /\ \A a \in DOMAIN x.arr :
         /\ \A i \in DOMAIN x.arr[a].p.h : x.arr[a].p.h[i] % 4 = 2
